@@ -39,19 +39,20 @@ def rebuilt (home nf : Expected) (n1 n2 : LSub) (t : Table) (captured : List MAC
 def stateOf (b : Built) (captured : List MAC) (hosts : List (IP × MAC)) : State :=
   { table := b.table, next1 := b.net1.first, next2 := b.net2.first, hosts := hosts, captured := captured }
 
-/-- restart under explicitly given expectations (what the driver runs): the handler `Config.New` returns and its state -/
-def restartWith (home nf : Expected) (n1 n2 : LSub) (s : State) (captured : List MAC) (hosts : List (IP × MAC)) :
+/-- restart under explicitly given expectations (what the driver runs): the handler `Config.New` returns for the lease
+    file that holds table `t`, and its state -/
+def restartWith (home nf : Expected) (n1 n2 : LSub) (t : Table) (captured : List MAC) (hosts : List (IP × MAC)) :
     Outcome (Built × State) :=
-  match rebuilt home nf n1 n2 s.table captured with
+  match rebuilt home nf n1 n2 t captured with
   | .ok b => .ok (b, stateOf b captured hosts)
   | .err e => .err e
   | .panic => .panic
   | .hang => .hang
 
-/-- **the restart operation** of a server constructed by `Config.New` from `n`: the admissible successor states
-    (`restart_defined` shows there is exactly one for every configuration `New` accepts) -/
-def restart (n : NewCfg) (s : State) (captured : List MAC) (hosts : List (IP × MAC)) : List State :=
-  match restartWith (homeExp n) (nfExp n) (lsubOf (mkCfg n).net1 1) (lsubOf (mkCfg n).net2 3) s captured hosts with
+/-- **the restart operation** of a server constructed by `Config.New` from `n`, for the lease file that holds table `t`:
+    the admissible successor states (`restart_defined` shows there is exactly one for every configuration `New` accepts) -/
+def restart (n : NewCfg) (t : Table) (captured : List MAC) (hosts : List (IP × MAC)) : List State :=
+  match restartWith (homeExp n) (nfExp n) (lsubOf (mkCfg n).net1 1) (lsubOf (mkCfg n).net2 3) t captured hosts with
   | .ok r => [r.2]
   | _ => []
 
@@ -61,8 +62,27 @@ inductive ROp where
   | restart (captured : List MAC) (hosts : List (IP × MAC))
   deriving Repr
 
-def stepR (n : NewCfg) (s : State) : ROp → List (State × List Reply)
-  | .op o => step (mkCfg n) s o
-  | .restart captured hosts => (restart n s captured hosts).map (fun s' => (s', []))
+/-- the server process: the handler's state and the lease table as `saveConfig` wrote it last.  The code saves in exactly
+    two places: at the end of `Config.New` and on the ACK path of `handleRequest` (after the lease was updated) — a
+    DECLINE, a RELEASE, a NAK that frees a lease, a lease that expires at a minute tick are NOT written, so a restart (a
+    crash at any moment) finds the table of the last ACK, not the current one. -/
+structure PState where
+  s : State
+  file : Table
+  deriving DecidableEq, Repr
+
+def acked (rs : List Reply) : Bool := rs.any (fun r => r.typ == .ack)
+
+/-- what is on disk after a step -/
+def fileAfter (file : Table) (o : State × List Reply) : Table := if acked o.2 then o.1.table else file
+
+/-- one operation of the process: a server operation (the file is rewritten when an ACK was sent), or a restart from
+    the file as it is (the new handler saves its table at the end of `New`) -/
+def stepP (n : NewCfg) (p : PState) : ROp → List (PState × List Reply)
+  | .op o => (step (mkCfg n) p.s o).map (fun r => ({ s := r.1, file := fileAfter p.file r }, r.2))
+  | .restart captured hosts => (restart n p.file captured hosts).map (fun s' => ({ s := s', file := s'.table }, []))
+
+/-- the process after `Config.New` without a lease file: empty table, saved -/
+def initP (n : NewCfg) : PState := { s := init (mkCfg n), file := [] }
 
 end PV.Model.Dhcp4Restart
